@@ -34,7 +34,7 @@ REQUIRED = {'bundles_judged': {'quick': 1200, 'thorough': 12000},
             'kept_checked': {'quick': 250, 'thorough': 2500},
             'new_row_checked': {'quick': 1200, 'thorough': 12000},
             'schema_bundles_judged': {'quick': 80, 'thorough': 800},
-            'witness_runs': {'quick': 1, 'thorough': 1}}
+            'witness_runs': {'quick': 2, 'thorough': 2}}
 SHARD_TIMEOUT = {'quick': 200, 'thorough': 1500}
 
 DEFAULT, NEVER, MANUAL = 0, 1, 2
@@ -61,7 +61,7 @@ DEP_TYPES = {'A': ['Int', 'Numeric', 'Text', 'Any'], 'B': ['Text', 'Any', 'Choic
 
 
 def plan(tier, seed):
-  w = [{'witness': 'explicit_value_lost_before_later_action'}]
+  w = [{'witness': 'explicit_value_lost_before_later_action'}, {'witness': 'explicit_unchanged_value_not_protected'}]
   if tier == 'quick':
     return w + [{'hseed': seed * 100003 + i, 'steps': 130} for i in range(15)]
   return w + [{'hseed': seed * 100003 + 7000 + i, 'steps': 420} for i in range(60)]
@@ -225,7 +225,10 @@ class Gen(object):
       for role in cols:
         vals[cfg[self.roles[role]]['id']] = self.value_for(role, cfg, rows0, row, 1.0 if allnoop else 0.2)
       for ref in tcols:
-        if allnoop:
+        cur = rows0[row].get(cfg[ref]['id'])
+        if allnoop or (rnd.random() < 0.2 and _simple(cur)):
+          # the current value, stated explicitly (a no-op for this cell)
+          vals[cfg[ref]['id']] = int(cur) if isinstance(cur, float) and cur == int(cur) and cfg[ref]['type'] != 'Numeric' else cur
           continue
         vals[cfg[ref]['id']] = self.explicit_for(cfg[ref])
       if not vals:
@@ -462,6 +465,28 @@ def judge(acc, kind, bundle, reply, trace, S0, S1, tref, violation):
     names = set(c[ref]['id'] for c in (cfg0, cfg1) if ref in c)
     return (ref, r) in nev or any((n, r) in upd or (n, r) in swrites for n in names)
 
+  def only_this_action_may_trigger(ref, r, j, mode, deps, new_row=False):
+    """The explicit value of (ref, r) was set by user action #j. True when it is certain that no OTHER user action of
+    the bundle changed one of the column's triggers in that row (a later action that does is entitled to a
+    recalculation). In a multi-action bundle a recomputed formula dependency cannot be attributed to one action."""
+    if len(bundle) == 1:
+      return True
+    for d in deps:
+      if d == ref:
+        continue
+      if d not in cfg0 or d not in cfg1:
+        return False
+      if cfg1[d]['isFormula'] or (d, r) in nev:
+        if touched(d, r):
+          return False
+        continue
+      for (jj, _) in upd.get((cfg1[d]['id'], r), []):
+        if jj != j:
+          return False
+    if mode == MANUAL and any(jj != j for (cc, rr), lst in upd.items() if rr == r for (jj, _) in lst):
+      return False
+    return True
+
   decided = set()
   nlast = len(bundle) - 1
   for ref in sorted(cfg1):
@@ -491,6 +516,9 @@ def judge(acc, kind, bundle, reply, trace, S0, S1, tref, violation):
         if cid1 in supplied:
           if selfdep:
             acc.count('skip_explicit_selfdep')
+            continue
+          if not only_this_action_may_trigger(ref, r, j, mode, deps, new_row=True):
+            acc.count('skip_explicit_and_dependency_in_different_actions')
             continue
           acc.count('kept_checked')
           acc.count('new_row_checked')
@@ -536,20 +564,19 @@ def judge(acc, kind, bundle, reply, trace, S0, S1, tref, violation):
           continue
         j, v = explicit[0]
         # a dependency changing in ANOTHER user action of the bundle is not covered by the statement
-        other = False
-        for d in deps:
-          if d in cfg1:
-            for (jj, _) in upd.get((cfg1[d]['id'], r), []):
-              other = other or jj != j
-        if mode == MANUAL:
-          other = other or any(jj != j for (cc, rr), lst in upd.items() if rr == r for (jj, _) in lst)
-        if other:
+        if not only_this_action_may_trigger(ref, r, j, mode, deps):
           acc.count('skip_explicit_and_dependency_in_different_actions')
           continue
         acc.count('kept_checked')
         decided.add((tag, 'kept'))
         if v1 != norm(v):
-          mech = 'explicit_value_lost_before_later_action' if (j < nlast and n) else 'explicit_value_not_kept'
+          # mechanisms of the two open findings: an explicit value equal to the current one is trimmed from the
+          # update and so never protected; a protected value loses its protection when another user action follows
+          mech = 'explicit_value_not_kept'
+          if n and norm(v) == v0:
+            mech = 'explicit_unchanged_value_not_protected'
+          elif n and j < nlast:
+            mech = 'explicit_value_lost_before_later_action'
           violation(mech, 'row %d: %s (%s) was set to %r in user action #%d of %d but holds %r (was %r, evaluated %d times)' % (
               r, cid1, tag, v, j, len(bundle), v1, v0, n), ref, r)
         continue
@@ -650,6 +677,28 @@ def witness_explicit_value_lost_before_later_action(acc):
     if two != 60.0:
       acc.violation('explicit_value_lost_before_later_action', 'witness: [UpdateRecord T 1 {A: 6, D: 60}, UpdateRecord T 2 {B: 7}] left '
                     'D[1] = %r instead of 60' % (two,), {'D': two})
+
+
+def witness_explicit_unchanged_value_not_protected(acc):
+  """Open finding: an explicit value that equals the current one is trimmed from the update as a no-op, so the
+  doc action never protects it, and a dependency changed by the same user action recalculates it."""
+  from vlib.client import EngineProc
+  from vlib import snapshot
+  with EngineProc() as p:
+    p.init_doc()
+    p.apply([['AddTable', 'T', [{'id': 'A', 'type': 'Int', 'isFormula': False}]]])
+    p.apply([['AddColumn', 'T', 'D', {'type': 'Int', 'isFormula': False, 'formula': '$A * 100', 'recalcWhen': 0, 'recalcDeps': [2]}]])
+    p.apply([['AddRecord', 'T', None, {'A': 1}]])
+    p.apply([['UpdateRecord', 'T', 1, {'A': 5, 'D': 50}]])
+    one = snapshot.rows_of(snapshot.take(p), 'T')[1]['D']
+    p.apply([['UpdateRecord', 'T', 1, {'A': 6, 'D': 50}]])
+    two = snapshot.rows_of(snapshot.take(p), 'T')[1]['D']
+    acc.count('witness_runs')
+    if one != 50.0:
+      acc.violation('explicit_value_not_kept', 'witness: UpdateRecord {A: 5, D: 50} left D = %r' % (one,), {})
+    if two != 50.0:
+      acc.violation('explicit_unchanged_value_not_protected', 'witness: with D[1] = 50, [UpdateRecord T 1 {A: 6, D: 50}] left '
+                    'D[1] = %r instead of 50' % (two,), {'D': two})
 
 
 def run_shard(spec, acc):
